@@ -10,9 +10,12 @@ import (
 	"testing"
 	"time"
 
+	"github.com/form3tech-oss/f1/v2/internal/options"
 	"github.com/form3tech-oss/f1/v2/internal/trigger/ramp"
 	"github.com/form3tech-oss/f1/v2/internal/trigger/staged"
+	"github.com/form3tech-oss/f1/v2/internal/ui"
 	"github.com/form3tech-oss/f1/v2/internal/verifh/kit"
+	"github.com/form3tech-oss/f1/v2/internal/verifh/runkit"
 )
 
 const base = int64(1_700_000_000_000_000_000)
@@ -313,6 +316,28 @@ func runRamp(c rcase) string {
 	return kit.Res(crashed, err, kit.Ints(outs))
 }
 
+// runRampBuilder builds the ramp the way `f1 run ramp` does - through the builder's flag set, next
+// to a --max-duration that may be shorter than, equal to or longer than --ramp-duration - and
+// samples the trigger's rate function: the ramp is the line over the configured ramp duration,
+// whatever the run's duration (the run cuts it off, it does not reshape it).
+func runRampBuilder(c rcase, maxD time.Duration) string {
+	var outs []int64
+	var err error
+	crashed, _ := kit.Guard(func() {
+		cfg := runkit.Config{Mode: "ramp", Flags: map[string]string{"start-rate": fmt.Sprintf("%d/1s", c.from), "end-rate": fmt.Sprintf("%d/1s", c.to),
+			"ramp-duration": time.Duration(c.dur).String(), "distribution": "none", "jitter": "0"}, Opts: options.RunOptions{MaxDuration: maxD}}
+		trig, e := runkit.BuildTrigger(&cfg, ui.NewDiscardOutput())
+		if e != nil {
+			err = e
+			return
+		}
+		for _, t := range c.ts {
+			outs = append(outs, int64(trig.DryRun(time.Unix(0, t))))
+		}
+	})
+	return kit.Res(crashed, err, kit.Ints(outs))
+}
+
 func genRamp(r *kit.Rand) rcase {
 	var c rcase
 	maxT := kit.Pick(r, int64(10), 100, 1000, 1_000_000, 50_000_000, 2_000_000_000)
@@ -420,6 +445,18 @@ func TestC10(t *testing.T) {
 		o.Case("ramp", []string{kit.I(x.from), kit.I(x.to), kit.I(x.dur), kit.Ints(x.ts)}, rx, "ramp", "pair", "nt")
 		o.Case("ramp", []string{kit.I(y.from), kit.I(y.to), kit.I(y.dur), kit.Ints(y.ts)}, ry, "ramp", "pair", "nt")
 	}
+	for i := 0; i < kit.N(200, 3000); i++ {
+		c := genRamp(r)
+		if c.dur < 1_000_000 {
+			continue // a ramp duration of zero means "the run's duration" on the command line
+		}
+		maxD := []time.Duration{time.Second, time.Duration(c.dur) / 2, time.Duration(c.dur), 2 * time.Duration(c.dur), time.Duration(c.dur) - time.Millisecond}[i%5]
+		if maxD <= 0 {
+			maxD = time.Second
+		}
+		o.Case("ramp", []string{kit.I(c.from), kit.I(c.to), kit.I(c.dur), kit.Ints(c.ts)}, runRampBuilder(c, maxD), "ramp", "builder", "nt")
+	}
+	o.Count("ramp", "built through the command's flag set next to --max-duration")
 	o.Count("instances", "pairs alive at once, queried in turn")
 }
 
